@@ -259,6 +259,7 @@ pub fn grow_alphabet(n: usize, len: usize) -> Vec<Act> {
         for h in [0, 2, 3] {
             v.push(ExtendHint(mm, h));
         }
+        v.push(ExtendPairs(mm));
     }
     v.extend([Fill, FillWith, FillSpare, FillSpareWith, MakeContiguous]);
     // drains: every valid half-open range, three scripts
